@@ -88,7 +88,7 @@ func (g *genState) source() int {
 		if r.Chance(1, 3) {
 			t = "s"
 		}
-		return g.add(Node{Op: "readerfunc", N: g.shards(), Types: []Col{t, "i"}, A: int64(r.Intn(40)), B: int64(r.Intn(13)), N2: r.Intn(9), Prag: g.prag()}, true)
+		return g.add(Node{Op: "readerfunc", N: g.shards(), Types: []Col{t, "i"}, A: int64(r.Pick([]int{r.Intn(40), r.Intn(150), 126 + r.Intn(6)})), B: int64(r.Intn(13)), N2: r.Intn(9), Prag: g.prag()}, true)
 	default:
 		n := r.Pick([]int{0, 1, 3, 10, 50})
 		lines := make([]int64, n)
@@ -244,6 +244,67 @@ func (g *genState) step() bool {
 	default:
 		return false
 	}
+}
+
+// GenDirected builds programs aimed at internal boundaries that random DAGs
+// rarely reach: kind 0 = a Flatmap over a ReaderFunc that returns its last rows
+// together with EOF, sized so that expansions straddle the 128-row vector;
+// kind 1 = a two-input Cogroup whose inputs have more than 128 rows per shard
+// and interleaved, different key sets (buffer refills in the middle of the merge).
+func GenDirected(r *vf.Rand, kind int) Prog {
+	var p Prog
+	switch kind % 2 {
+	case 0:
+		// pick the row count so that, in shard 0, the expansion of the LAST input row
+		// straddles a multiple of the 128-row vector
+		n2 := 2 * r.Intn(4) // even: EOF comes with the last rows
+		col := r.Intn(2)
+		b := int64(r.Intn(5))
+		var good []int64
+		for a := int64(40); a < 150; a++ {
+			rows := ReaderRows(Node{A: a, B: b}, 0)
+			cum := int64(0)
+			for _, rw := range rows[:len(rows)-1] {
+				cum += mod(rw[col], 4)
+			}
+			last := mod(rows[len(rows)-1][col], 4)
+			for m := int64(128); m < cum+last; m += 128 {
+				if cum < m && m < cum+last {
+					good = append(good, a)
+				}
+			}
+		}
+		a := int64(r.Range(40, 149))
+		if len(good) > 0 {
+			a = good[r.Intn(len(good))]
+		}
+		p.Nodes = append(p.Nodes, Node{Op: "readerfunc", N: r.Range(1, 2), Types: []Col{"i", "i"}, A: a, B: b, N2: n2})
+		p.Nodes = append(p.Nodes, Node{Op: "flatmap", In: []int{0}, Exprs: []Expr{{K: "col", I: col}}})
+	default:
+		// overlapping key sets, one input with key runs crossing the 128-row buffer
+		// boundary while the other input holds the same keys
+		nsh := r.Range(1, 2)
+		rowsA := r.Pick([]int{129, 200, 300, 400, 600})
+		ca := [][]int64{make([]int64, rowsA), make([]int64, rowsA)}
+		per := int64(r.Range(2, 3))
+		for i := 0; i < rowsA; i++ {
+			ca[0][i], ca[1][i] = int64(i)/per, int64(i)
+		}
+		rowsB := r.Pick([]int{40, 129, 260, 301})
+		cb := [][]int64{make([]int64, rowsB), make([]int64, rowsB)}
+		span := int64(rowsA)/per + 1
+		for i := 0; i < rowsB; i++ {
+			cb[0][i], cb[1][i] = mod(int64(3*i), span), int64(1000+i)
+		}
+		p.Nodes = append(p.Nodes, Node{Op: "const", N: nsh, Types: []Col{"i", "i"}, Cols: ca},
+			Node{Op: "const", N: nsh, Types: []Col{"i", "i"}, Cols: cb})
+		ins := []int{0, 1}
+		if r.Bool() {
+			ins = []int{1, 0}
+		}
+		p.Nodes = append(p.Nodes, Node{Op: "cogroup", In: ins})
+	}
+	return p
 }
 
 // Gen generates a well-typed program; the root is the last node.
